@@ -351,9 +351,17 @@ class Queue(Greenlet):
             self._add_queued(entry)
 
     def _remove(self, id):
-        self._pool_spawn('store', self.store.remove, id)
+        self._pool_spawn('store', self._remove_stored, id)
         self.queued_ids.discard(id)
-        self.active_ids.discard(id)
+
+    def _remove_stored(self, id):
+        # The id stays marked as active until it is gone from storage, so
+        # that a load() or wait() announcement of it arriving in between is
+        # not taken for a message that still needs an attempt.
+        try:
+            self.store.remove(id)
+        finally:
+            self.active_ids.discard(id)
 
     def _bounce(self, envelope, reply):
         bounce = self.bounce_factory(envelope, reply)
